@@ -188,6 +188,15 @@ def pushed(p: Path, repl: Optional[Callable[[Tuple[Any, ...]], Optional[Poly]]] 
         text = tpl_shape(e.args[0], lambda x: render_hole(x, repl))
         if text is None:
             text = "{" + show(e.args[0]) + "}"
+        if e.name == "push_string":
+            # appended to the line pushed last
+            sep = e.kw.get("separator", e.args[1] if len(e.args) > 1 else None)
+            sep_s = " " if sep is None else (tpl_shape(sep, lambda x: render_hole(x, repl)) or " ")
+            if out:
+                out[-1] = (out[-1][0], out[-1][1] + sep_s + text)
+            else:
+                out.append((0, text))
+            continue
         ind = e.kw.get("indent", e.args[1] if len(e.args) > 1 and e.name == "push" else None)
         rel: Optional[int]
         if ind is None or (single_atom(ind) is not None and single_atom(ind)[0] == "none"):
